@@ -1552,10 +1552,30 @@ def gen_twice(seed, idbase=0, nops=150, nb=("BucketsSize", 32), kt="bytes", bufs
                 s.op("del", h=1, k=rng.choice(wk))
             if rng.random() < 0.2:
                 s.op("get", h=1, k=rng.choice(wk))
+        # records of every small slot class rewritten in place by slightly shorter ones, the longest last: whatever
+        # the process keeps from its last writes (scratch images of a slot, say) is longer than anything replica A writes first
+        for j, (a, b) in enumerate([(31, 25), (60, 50), (120, 100), (250, 240), (500, 490), (900, 880)]):
+            wkj = wk[j % len(wk)]
+            s.op("put", h=1, k=wkj, v=s.newval(a))
+            s.op("put", h=1, k=wkj, v=s.newval(b))
         s.op("iter", h=1, flavour="iter")
         s.op("stats", h=1, filling=True)
         s.op("dump", h=1)
         s.op("drop_all")
+    # phase 1 (shrink): values rewritten in place by much shorter ones (the padding behind them is written anew)
+    shrink_ops = []
+    # (keys of their own: nothing rewrites these slots later)
+    sk = _mk_keys(s, rng, kt, 4, lens=[9, 11, 14, 18])
+    for j, (a, b) in enumerate([(100, 20), (400, 3), (60, 0), (1000, 700)]):
+        shrink_ops += [("put", sk[j], s.newval(a)), ("put", sk[j], s.newval(b))]
+    # phase 2 (head): a key is put, looked up (replica B only), a new key is put (in a one-bucket table: in front of it),
+    # the first one is deleted - what the lookup remembered about the chain is stale by then
+    head_ops = []
+    if nkeys >= 20:
+        hk = _mk_keys(s, rng, kt, 7, lens=[9, 10, 12, 17])
+        head_ops.append(("put", hk[0], vids[1]))
+        for j in range(len(hk) - 1):
+            head_ops += [("look", hk[j], None), ("put", hk[j + 1], vids[2]), ("del", hk[j], None)]
     if interleaved:
         # both replicas are open at the same time in ONE process (two database objects on two fresh directories),
         # every update goes to A and then to B; the read-only calls go to B only
@@ -1580,12 +1600,12 @@ def gen_twice(seed, idbase=0, nops=150, nb=("BucketsSize", 32), kt="bytes", bufs
                 s.op(rng.choice(["get", "includes"]), h=2, k=rng.choice(keys))
             elif rng.random() < 0.15:
                 s.op("iter", h=2, flavour=rng.choice(FLAVOURS))
-        s.op("dump", h=1)
         s.op("dump", h=2)
         s.op("new_process")
-        s.op("digest", dir="dA", name="m", tag="repA")
-        s.op("digest", dir="dB", name="m", tag="repB")
-        s.op("note", conj="C18.equal", same=["repA", "repB"])
+        # ("always": the comparison of the files is made whatever happened to the calls before)
+        s.op("digest", dir="dA", name="m", tag="repA", always=True)
+        s.op("digest", dir="dB", name="m", tag="repB", always=True)
+        s.op("note", conj="C18.equal", same=["repA", "repB"], always=True)
         s.op("decode", dir="dB", name="m", native=True)
         return s
     for rep, d in (("A", "dA"), ("B", "dB")):
@@ -1607,6 +1627,14 @@ def gen_twice(seed, idbase=0, nops=150, nb=("BucketsSize", 32), kt="bytes", bufs
                 s.op("get", h=1, k=rng.choice(keys))
                 s.op("iter", h=1, flavour=rng.choice(FLAVOURS))
                 s.op("stats", h=1, only=rng.choice(["kfree", "vfree"]))
+        for (o, k, v) in shrink_ops + head_ops:
+            if o == "put":
+                s.op("put", h=1, k=k, v=v)
+            elif o == "del":
+                s.op("del", h=1, k=k)
+            elif rep == "B":
+                s.op("get", h=1, k=k)
+                s.op("includes", h=1, k=k)
         for (o, k, v) in tail_ops:
             if o == "put":
                 s.op("put", h=1, k=k, v=v)
@@ -1655,12 +1683,14 @@ def gen_twice(seed, idbase=0, nops=150, nb=("BucketsSize", 32), kt="bytes", bufs
             s.op("len", h=1)
             s.op("get", h=1, k=rng.choice(keys))
             s.op("iter", h=1, flavour=rng.choice(FLAVOURS))
-        s.op("dump", h=1)
+        if rep == "B":
+            s.op("dump", h=1)       # (replica A makes no read-only call at all: a lookup of every key is one, too)
         s.op("new_process")
-    s.op("digest", dir="dA", name="m", tag="repA")
-    s.op("digest", dir="dB", name="m", tag="repB")
-    s.op("note", conj="C18.equal", same=["repA", "repB"])
+    s.op("digest", dir="dA", name="m", tag="repA", always=True)
+    s.op("digest", dir="dB", name="m", tag="repB", always=True)
+    s.op("note", conj="C18.equal", same=["repA", "repB"], always=True)
     s.op("decode", dir="dB", name="m", native=True)
+    s.op("child_dump", dir="dA", name="m", kt=kt)
     return s
 
 
